@@ -114,4 +114,104 @@ mod verif_kani_datetime {
         assert!(dt.hour() == w.time().hour() && dt.minute() == w.time().minute() && dt.second() == w.time().second() && dt.nanosecond() == w.time().nanosecond(), "dt.hour() == w.time().hour() && dt.minute() == w.time().minute() && dt");
         assert!(dt.time() == w.time(), "dt.time() == w.time()");
     }
+
+    // ------------------------------------------------------------------------------------------
+    // field replacement, time replacement and month stepping of a zone-aware date-time act on the wall-clock reading (map_local)
+    fn in_range(u: &NaiveDateTime) -> bool { *u >= NaiveDateTime::MIN && *u <= NaiveDateTime::MAX }
+    /// re-anchor a new wall-clock reading in the same fixed offset: instant = wall - offset, which must stay in range
+    fn back(w: Option<NaiveDateTime>, o: FixedOffset) -> Option<NaiveDateTime> { match w { Some(w) => match w.checked_sub_offset(o) { Some(u) if in_range(&u) => Some(u), _ => None }, None => None } }
+
+    // fns: DateTime::with_time, TimeZone::from_local_datetime for FixedOffset
+    #[kani::proof]
+    fn vk_dt_with_time() {
+        let u = any_ndt(); let o = any_offset();
+        let t = NaiveTime::from_num_seconds_from_midnight_opt(kani::any(), kani::any());
+        kani::assume(t.is_some());
+        let dt = o.from_utc_datetime(&u);
+        let wall_date = u.overflowing_add_offset(o).date();
+        kani::cover!(wall_date != u.date(), "wall-clock date differs from the UTC date");
+        let want = match wall_date.and_time(t.unwrap()).checked_sub_offset(o) { Some(x) => Some(x), None => None };
+        match dt.with_time(t.unwrap()) {
+            MappedLocalTime::Single(r) => assert!(Some(r.naive_utc()) == want && *r.offset() == o, "with_time puts the new time on the wall-clock date and keeps the offset"),
+            MappedLocalTime::None => assert!(want.is_none(), "with_time fails only when the instant leaves the range"),
+            MappedLocalTime::Ambiguous(_, _) => assert!(false, "a fixed offset is never ambiguous"),
+        }
+    }
+
+    fn dt_with_date_field(lo: u8, hi: u8) {
+        let u = any_ndt(); let o = any_offset();
+        let dt = o.from_utc_datetime(&u);
+        let w = u.overflowing_add_offset(o);
+        let v: u32 = kani::any(); let y: i32 = kani::any();
+        let which: u8 = kani::any();
+        kani::assume(which >= lo && which <= hi);
+        let (got, want) = match which {
+            0 => (dt.with_year(y), w.with_year(y)),
+            1 => (dt.with_month(v), w.with_month(v)),
+            2 => (dt.with_month0(v), w.with_month0(v)),
+            3 => (dt.with_day(v), w.with_day(v)),
+            4 => (dt.with_day0(v), w.with_day0(v)),
+            5 => (dt.with_ordinal(v), w.with_ordinal(v)),
+            _ => (dt.with_ordinal0(v), w.with_ordinal0(v)),
+        };
+        kani::cover!(got.is_some(), "a field replaced"); kani::cover!(got.is_none(), "a replacement refused");
+        match (got, back(want, o)) {
+            (Some(g), Some(x)) => assert!(g.naive_utc() == x && *g.offset() == o, "the field is replaced on the wall-clock reading, the offset is kept"),
+            (None, None) => {}
+            _ => assert!(false, "replacement succeeds exactly when the new wall-clock reading exists and its instant is in range"),
+        }
+    }
+    // fns: Datelike::with_year for DateTime<Tz>, map_local
+    #[kani::proof]
+    fn vk_dt_with_year() { dt_with_date_field(0, 0); }
+    // fns: Datelike::{with_month, with_month0} for DateTime<Tz>, map_local
+    #[kani::proof]
+    fn vk_dt_with_month() { dt_with_date_field(1, 2); }
+    // fns: Datelike::{with_day, with_day0} for DateTime<Tz>, map_local
+    #[kani::proof]
+    fn vk_dt_with_day() { dt_with_date_field(3, 4); }
+    // fns: Datelike::{with_ordinal, with_ordinal0} for DateTime<Tz>, map_local
+    #[kani::proof]
+    fn vk_dt_with_ordinal() { dt_with_date_field(5, 6); }
+
+    // fns: Timelike::{with_hour, with_minute, with_second, with_nanosecond} for DateTime<Tz>, map_local
+    #[kani::proof]
+    fn vk_dt_with_time_fields() {
+        let u = any_ndt(); let o = any_offset();
+        let dt = o.from_utc_datetime(&u);
+        let w = u.overflowing_add_offset(o);
+        let v: u32 = kani::any();
+        let which: u8 = kani::any();
+        kani::assume(which < 4);
+        let (got, want) = match which {
+            0 => (dt.with_hour(v), w.with_hour(v)),
+            1 => (dt.with_minute(v), w.with_minute(v)),
+            2 => (dt.with_second(v), w.with_second(v)),
+            _ => (dt.with_nanosecond(v), w.with_nanosecond(v)),
+        };
+        kani::cover!(got.is_some() && which == 0, "an hour replaced");
+        match (got, back(want, o)) {
+            (Some(g), Some(x)) => assert!(g.naive_utc() == x && *g.offset() == o, "the field is replaced on the wall-clock reading, the offset is kept"),
+            (None, None) => {}
+            _ => assert!(false, "replacement succeeds exactly when the new wall-clock reading exists and its instant is in range"),
+        }
+    }
+
+    // fns: DateTime::checked_add_months, DateTime::checked_sub_months
+    #[kani::proof]
+    fn vk_dt_months() {
+        let u = any_ndt(); let o = any_offset();
+        let dt = o.from_utc_datetime(&u);
+        let w = u.overflowing_add_offset(o);
+        let n: u32 = kani::any(); let add: bool = kani::any();
+        let m = crate::Months::new(n);
+        let (got, want) = if add { (dt.checked_add_months(m), w.checked_add_months(m)) } else { (dt.checked_sub_months(m), w.checked_sub_months(m)) };
+        kani::cover!(got.is_some() && n > 0 && w.date() != u.date(), "stepping months where the wall-clock date differs from the UTC date");
+        if n == 0 { assert!(got.map(|g| g.naive_utc()) == Some(u), "Months(0) is the identity"); }
+        else { match (got, match want { Some(x) => x.checked_sub_offset(o), None => None }) {
+            (Some(g), Some(x)) => assert!(g.naive_utc() == x && *g.offset() == o, "month stepping acts on the wall-clock reading"),
+            (None, None) => {}
+            _ => assert!(false, "month stepping succeeds exactly when the wall-clock result exists and its instant is representable"),
+        } }
+    }
 }
